@@ -125,6 +125,8 @@ def run(repo: Repo) -> Result:
         h = helper_of(f)
         prefix = f"{h.relpath}::{h.qualname}" if h is not None else f"{grv.relpath}::{grv.qualname}"
         ok = (mode, gran) in (("absent", "per-key"), ("present", "per-pair"))
+        if mode is None:
+            continue  # never active: reported by the bucket-set comparisons (and by C01.T2)
         c01._add(
             res, "C12.NEG", f"{prefix}::{f} predicate", ok,
             f"{mode} mode, {gran}: 'empty list for the key' vs 'non-empty list' are exact complements" if ok
